@@ -30,6 +30,7 @@ def run(idx, rep, tier):
     mink.r_mink(idx, rep, modules=["distance3d.epa"], floor=2)
     buffers.r_guardstore(idx, rep, modules=set(MODS), floor=2)
     loops.r_loop(idx, rep, MODS, floor=3, allowed=("CAP", "STRUCT"))
+    misc2.r_adjacency(idx, rep)      # epa queries collider.support_function: a mesh support over an incomplete adjacency returns a non-extreme vertex, EPA then converges early
     # R-FACEROLE: rows 0-2 of a face are vertices (degree 1), row 3 the unit normal (degree 0) wherever a face is read or written
     import ast as _ast
     faces = dict(degree.EPA_FACES)
